@@ -30,6 +30,7 @@ from fractions import Fraction as Fr
 import numpy as np
 
 from ..cert import DM, chol_factor, frac_json
+from ..exact import Pure, call_rng, describe, present_nd
 from ..pool import Result, fold, run_pool, worker_driver
 
 RULE = ("XOR games: corpus (CHSH in int/float/bool predicate dtype, odd-cycle games n=3,5, rectangular and degenerate shapes) then seeded random games with "
@@ -37,7 +38,11 @@ RULE = ("XOR games: corpus (CHSH in int/float/bool predicate dtype, odd-cycle ga
         "tol defaulted or given, reps 1..3, a few distributions perturbed within a given tol; per instance the Lean checker certifies the bias interval [lo, hi]. "
         "Bell: 2x2 coefficient matrices (integers / dyadics), optional marginal terms, outcome labels +-1, 0/1 (Clauser-Horne form) or other pairs. "
         "non-trivial = certified quantum bias exceeds the exact classical bias (deterministic maximum) by >= 1e-2 with interval width <= 1e-4 (Bell with marginals: "
-        "certified strategy value exceeds the deterministic maximum by >= 1e-2); distinct = hash of instance and call")
+        "certified strategy value exceeds the deterministic maximum by >= 1e-2); distinct = hash of instance and call; "
+        "presentation: every XORGame is built from the same values in a freshly drawn presentation (probability matrix: C / Fortran / strided layout, int64 when "
+        "integer-valued; predicate: the task's dtype in a drawn layout), bell_inequality_max receives its five arrays likewise (integer coefficients / labels also as "
+        "int64); the handed-over objects must be untouched after every method call (also through the converted NonlocalGame, which holds references); "
+        "quantum_value (one in three), classical_value and the converted game's classical_value are called twice on the same object and must agree")
 ASSUMPTIONS = [
     "toqito computes with the float inputs it is given; the instance certified is their exact rational image",
     "tolerance 1e-3 (times the coefficient scale for Bell expressions) on SCS-solved values (DESIGN.md 4.4); classical values are compared exactly "
@@ -393,6 +398,8 @@ def work_game(task, res: Result):
     fj = [int(pred_i[x, y]) for x in range(m) for y in range(n)]
     exact_dyadic = all(_is_dyadic_small(P[x][y]) for x in range(m) for y in range(n))
     lrng = np.random.default_rng(zlib.crc32(str(pj).encode()))
+    pres = task.get("pres")
+    guards = []  # (Pure guard, text) of every pair of arrays handed to a game constructor in this task (the objects stay referenced by the games)
     # ---- model: cost matrix, exact classical value
     Dl = [_from_j(p) for p in drv.ask("c08_dmat", {"m": m, "n": n, "prob": pj, "pred": fj})["D"]]
     D = [[Dl[x * n + y] for y in range(n)] for x in range(m)]
@@ -413,17 +420,31 @@ def work_game(task, res: Result):
         vh = _from_j(drv.ask("c08_value", {"s": _fj(2 * hi), "reps": r})["value"])
         return float(vl), float(vh)
 
-    def make(r):
-        return XORGame(prob.copy(), pred.copy(), reps=r, **kw)
+    def make(r, key=""):
+        # the same values in a presentation drawn for this construction; the game keeps references to the objects handed over
+        prng = call_rng(pres, "make", key, r)
+        a_prob = present_nd(prng, prob.copy())
+        a_pred = present_nd(prng, pred.copy(), allow_dtype=False)
+        guards.append((Pure(a_prob, a_pred), describe([a_prob, a_pred])))
+        return XORGame(a_prob, a_pred, reps=r, **kw)
 
     def fail(call, what, extra):
         info = {"function": "XORGame." + call, "args": _desc(task, call)}
         info.update(extra)
         res.violation(what, info)
 
+    def purity(call):
+        for g in list(guards):
+            why = g[0].modified()
+            if why is not None:
+                guards.remove(g)
+                fail(call, f"XORGame.{call}: caller's arguments were modified ({why}; arg0 = prob_mat, arg1 = pred_mat)", {"modified": why, "presentation": g[1], "check": "purity", "impl": "mutation"})
+
     def guarded(call, fn):
         try:
-            return True, fn()
+            out = fn()
+            purity(call)
+            return True, out
         except cvxpy.error.SolverError as e:
             res.case(_desc(task, call), False, f"{call}/solver-numerical-failure")
             return False, None
@@ -462,15 +483,26 @@ def work_game(task, res: Result):
             captured.append(self)
             return orig(self, *a, **k)
 
+        q_again = []
+
         def call_q():
-            g = make(reps)
+            g = make(reps, "q")
             cvxpy.Problem.solve = rec
             try:
-                return float(g.quantum_value())
+                v = float(g.quantum_value())
             finally:
                 cvxpy.Problem.solve = orig
+            prq = call_rng(pres, "q-again")
+            if prq is not None and int(prq.integers(3)) == 0:
+                purity("quantum_value")
+                q_again.append(float(g.quantum_value()))   # the SAME game object again
+            return v
 
         ok, q = guarded("quantum_value", call_q)
+        if ok and q_again:
+            res.count("repeat-call/quantum_value")
+            if abs(q_again[0] - q) > 2 * TAU:
+                fail("quantum_value", f"XORGame.quantum_value: a second call on the same game returns {q_again[0]:.8f}, the first returned {q:.8f}", {"values": [q, q_again[0]], "check": "repeat"})
         if ok:
             res.case(_desc(task, "quantum_value"), nontriv, f"quantum_value/reps={reps}/" + branch_base)
             if captured:
@@ -490,12 +522,19 @@ def work_game(task, res: Result):
                     fail("quantum_value", f"XORGame.quantum_value (reps={reps}) = {q:.8f} below the classical value power {float(c_exact) ** reps:.8f}", {"impl": q, "classical": float(c_exact), "theorem": "xor_classical_le_quantum"})
     # ---- classical value (single shot): exact
     if "c" in task["calls"]:
+        c_again = []
+
         def call_c():
             nonlocal g1
-            g1 = make(1)
-            return g1.classical_value()
+            g1 = make(1, "c")
+            v = g1.classical_value()
+            purity("classical_value")
+            c_again.append(g1.classical_value())   # the SAME game object again
+            return v
 
         ok, c = guarded("classical_value", call_c)
+        if ok and float(c_again[0]) != float(c):
+            fail("classical_value", f"XORGame.classical_value: a second call on the same game returns {float(c_again[0])!r}, the first returned {float(c)!r}", {"values": [float(c), float(c_again[0])], "check": "repeat"})
         if ok:
             c_impl = float(c)
             res.case(_desc(task, "classical_value"), nontriv, "classical_value/" + branch_base + ("/exact" if exact_dyadic else "/1e-12"))
@@ -504,12 +543,12 @@ def work_game(task, res: Result):
                 fail("classical_value", f"XORGame.classical_value = {c_impl!r} differs from the exact maximum over sign assignments {float(c_exact)!r} = 1/2*{float(total)} + 1/2*{float(bias_c)}",
                      {"impl": c_impl, "model": str(c_exact), "bias": str(bias_c), "theorem": "xor_classical_value_is_max / xor_classical_value_formula"})
             if not (np.array_equal(g1.prob_mat, prob) and np.array_equal(np.asarray(g1.pred_mat), pred)):
-                fail("classical_value", "XORGame.classical_value modified the caller's matrices", {"impl": "mutation"})
+                fail("classical_value", "XORGame.classical_value: caller's arguments were modified (the matrices held by the game differ from the values handed over)", {"impl": "mutation", "check": "purity"})
     # ---- conversion
     nlg = None
     if "conv" in task["calls"]:
         def call_conv():
-            return make(1).to_nonlocal_game()
+            return make(1, "conv").to_nonlocal_game()
 
         ok, nlg = guarded("to_nonlocal_game", call_conv)
         if ok:
@@ -522,6 +561,10 @@ def work_game(task, res: Result):
                      {"impl": {"shape": list(got_arr.shape), "pred": got_arr.reshape(-1).tolist()}, "model": want, "theorem": "xor_conversion"})
             else:
                 okc, c2v = guarded("to_nonlocal_game().classical_value", lambda: float(nlg.classical_value()))
+                if okc:
+                    okc2, c2w = guarded("to_nonlocal_game().classical_value", lambda: float(nlg.classical_value()))   # the SAME converted game again
+                    if okc2 and c2w != c2v:
+                        fail("to_nonlocal_game", f"classical value of the converted game: a second call on the same object returns {c2w!r}, the first returned {c2v!r}", {"values": [c2v, c2w], "check": "repeat"})
                 if okc:
                     diff = abs(Fr(c2v) - c_exact)
                     if (exact_dyadic and diff != 0) or diff > Fr(1, 10 ** 12) or (c_impl is not None and c2v != c_impl):
@@ -540,7 +583,7 @@ def work_game(task, res: Result):
                          {"impl": v, "certified_value": [vl, vh], "tau": TAU, "theorem": "checkXorPrimal_sound / checkXorDual_sound / xor_win_eq_bias"})
     # ---- non-signalling values of both formulations
     if "ns" in task["calls"]:
-        ok, v1 = guarded("nonsignaling_value", lambda: float(make(1).nonsignaling_value()))
+        ok, v1 = guarded("nonsignaling_value", lambda: float(make(1, "ns").nonsignaling_value()))
         if ok:
             res.case(_desc(task, "nonsignaling_value"), nontriv, "nonsignaling_value")
             res.count("deviation/nonsignaling_value/" + _bucket(abs(v1 - float(total))))
@@ -552,7 +595,7 @@ def work_game(task, res: Result):
                     fail("nonsignaling_value", f"non-signalling values of the two formulations differ: XOR {v1:.8f}, converted {v2:.8f}", {"impl": [v1, v2], "theorem": "xor_ns_value_eq_one"})
     # ---- classical value of two repetitions (small games): exact product-game value, between c^2 and q^2
     if "c2" in task["calls"] and m <= 2 and n <= 2:
-        ok, c2 = guarded("classical_value(reps=2)", lambda: float(make(2).classical_value()))
+        ok, c2 = guarded("classical_value(reps=2)", lambda: float(make(2, "c2").classical_value()))
         if ok:
             res.case(_desc(task, "classical_value_reps2"), nontriv, "classical_value/reps=2")
             ex = _exact_classical_reps2(P, pred_i.tolist(), m, n)
@@ -700,7 +743,7 @@ def work_bell(task, res: Result):
     b = np.array(task["b"], dtype=float)
     aval = np.array(task["aval"], dtype=float)
     bval = np.array(task["bval"], dtype=float)
-    lrng = np.random.default_rng(zlib.crc32(str(sorted(task.items())).encode()))
+    lrng = np.random.default_rng(zlib.crc32(str(sorted((k, v) for k, v in task.items() if k != "pres")).encode()))
     aff = drv.ask("c08_bell_affine", {"m": 2, "n": 2, "J": [_fj(_fr(J[x, y])) for x in range(2) for y in range(2)], "a": [_fj(_fr(v)) for v in a],
                                       "b": [_fj(_fr(v)) for v in b], "aval": [_fj(_fr(v)) for v in aval], "bval": [_fj(_fr(v)) for v in bval]})
     Jl = [_from_j(p) for p in aff["J"]]
@@ -716,17 +759,35 @@ def work_bell(task, res: Result):
         res.count("uncertified/bell:" + ";".join(why)[:60])
     desc = dict(task)
     nontriv = lo is not None and float(lo - det) >= 1e-2 and (has_marg or (hi is not None and float(hi - lo) <= WIDTH_OK * scale))
+    # the same values in a presentation drawn for this call (layout; integer-valued coefficients / labels also as int64)
+    prng = call_rng(task.get("pres"), "bell")
+    bargs = [present_nd(prng, x.copy()) for x in (J, a, b, aval, bval)]
+    guard = Pure(*bargs)
     try:
-        bm = float(bell_inequality_max(J.copy(), a.copy(), b.copy(), aval.copy(), bval.copy(), solver_name=task.get("solver", "SCS")))
+        bm = float(bell_inequality_max(*bargs, solver_name=task.get("solver", "SCS")))
+        why_mod = guard.modified()
+        bm2 = None
+        if why_mod is None and prng is not None and int(prng.integers(4)) == 0:
+            bm2 = float(bell_inequality_max(*bargs, solver_name=task.get("solver", "SCS")))   # the SAME objects again
+            why_mod = guard.modified()
     except cvxpy.error.SolverError:
         res.case(desc, False, "bell/solver-numerical-failure")
         return
     except Exception as e:  # noqa: BLE001
         res.case(desc, True, "bell/raise")
-        res.violation(f"bell_inequality_max raises {type(e).__name__}: {str(e)[:160]} on a valid two-setting inequality", {"function": "bell_inequality_max", "args": desc, "exception": f"{type(e).__name__}: {str(e)[:300]}"})
+        res.violation(f"bell_inequality_max raises {type(e).__name__}: {str(e)[:160]} on a valid two-setting inequality",
+                      {"function": "bell_inequality_max", "args": desc, "exception": f"{type(e).__name__}: {str(e)[:300]}", "presentation": describe(bargs)})
         return
     res.case(desc, nontriv, f"bell/{task['label']}/{'marg' if has_marg else 'corr'}/{'pm1' if sorted(task['aval']) == [-1.0, 1.0] and sorted(task['bval']) == [-1.0, 1.0] else 'labels'}")
-    info = {"function": "bell_inequality_max", "args": desc, "impl": bm, "pm1_form": {"J": [[str(v) for v in r] for r in Jp], "a": [str(v) for v in ap], "b": [str(v) for v in bp], "const": str(const)}, "tau": tau}
+    if why_mod is not None:
+        res.violation(f"bell_inequality_max: caller's arguments were modified ({why_mod}; arguments in the order joint_coe, a_coe, b_coe, a_val, b_val)",
+                      {"function": "bell_inequality_max", "args": desc, "modified": why_mod, "presentation": describe(bargs), "check": "purity"})
+    elif bm2 is not None:
+        res.count("repeat-call/bell")
+        if abs(bm2 - bm) > 2 * tau:
+            res.violation(f"bell_inequality_max: a second call on the same objects returns {bm2:.8f}, the first returned {bm:.8f}",
+                          {"function": "bell_inequality_max", "args": desc, "values": [bm, bm2], "presentation": describe(bargs), "check": "repeat"})
+    info = {"function": "bell_inequality_max", "args": desc, "impl": bm, "presentation": describe(bargs), "pm1_form": {"J": [[str(v) for v in r] for r in Jp], "a": [str(v) for v in ap], "b": [str(v) for v in bp], "const": str(const)}, "tau": tau}
     dmax = float(const + det)
     if bm < dmax - tau:
         res.violation(f"bell_inequality_max = {bm:.8f} is below the best deterministic assignment {dmax:.8f}", dict(info, deterministic=dmax, theorem="bell_det_le_opt"))
@@ -773,6 +834,9 @@ def run(ctx, model_ok=True):
         if bells and k % 2 == 0:
             tasks.append(bells.pop())
         k += 1
+    prs = rng.spawn(1)[0]   # presentation stream: a child of the seeded generator (spawning does not consume the parent's draws)
+    for t in tasks:
+        t["pres"] = int(prs.integers(1, 2 ** 31))
     run_pool(ctx, work, tasks)
     ctx.extra["tolerances"] = {"scs": TAU, "classical": "exact (1e-12 for non-dyadic distributions)", "bell": "1e-3 * coefficient scale"}
     ctx.extra["certified_interval_width_bound"] = WIDTH_OK
